@@ -520,6 +520,8 @@ class CParser:
             return False
         if tok_type in _STARTS_STATEMENT:
             return True
+        if tok_type == "TYPEID" and self._peek_type(2) == "COLON":
+            return True
         return self._starts_expression()
 
     def _starts_declarator(self, id_only: bool = False) -> bool:
@@ -1577,7 +1579,9 @@ class CParser:
         match tok_type:
             case "CASE" | "DEFAULT":
                 return self._parse_labeled_statement()
-            case "ID" if self._peek_type(2) == "COLON":
+            case "ID" | "TYPEID" if self._peek_type(2) == "COLON":
+                # Labels have their own name space: a label may be spelled
+                # like a typedef name.
                 return self._parse_labeled_statement()
             case "LBRACE":
                 return self._parse_compound_statement()
@@ -1604,6 +1608,8 @@ class CParser:
 
     # BNF: block_item : declaration | statement
     def _parse_block_item(self) -> c_ast.Node | List[c_ast.Node]:
+        if self._peek_type() == "TYPEID" and self._peek_type(2) == "COLON":
+            return self._parse_statement()
         if self._starts_declaration():
             return self._parse_declaration()
         return self._parse_statement()
@@ -1638,7 +1644,7 @@ class CParser:
     def _parse_labeled_statement(self) -> c_ast.Node:
         tok_type = self._peek_type()
         match tok_type:
-            case "ID":
+            case "ID" | "TYPEID":
                 name_tok = self._advance()
                 self._expect("COLON")
                 if self._starts_statement():
@@ -1744,7 +1750,11 @@ class CParser:
         tok = self._advance()
         match tok.type:
             case "GOTO":
-                name_tok = self._expect("ID")
+                name_tok = self._advance()
+                if name_tok.type not in {"ID", "TYPEID"}:
+                    self._parse_error(
+                        f"before: {name_tok.value}", self._tok_coord(name_tok)
+                    )
                 self._expect("SEMI")
                 return c_ast.Goto(name_tok.value, self._tok_coord(tok))
             case "BREAK":
